@@ -1,7 +1,359 @@
-import RulioModel.Query
+import RulioProofs.QueryExamples
 
-/-! # C03 — query semantics (placeholder obligations until the Query proofs land) -/
+/-! # C03 — condition queries follow the and/or/not/pattern/code semantics (property theorems only)
 
-/-- the empty query is the identity -/
-theorem exec_empty (srch : Srch) (bss : List Bs) : execQ srch .empty bss = .ok bss := by
-  simp [execQ]
+`execQ srch q bss` is the model of `Query.Exec` (query.go) on the incoming bindings `bss`; the fact search
+(`SearchLocations`: local and inherited facts that match, C01/C02/C05) is the parameter
+`srch : Obj → Except LErr (List Bs)`, so every theorem holds for all fact sets, with and without parents.
+All statements quantify over arbitrary query programs `Q` (any nesting, any arity), arbitrary `srch`
+and arbitrary lists of incoming bindings. -/
+
+open QueryProofs
+
+/-! ## 1. the empty query -/
+
+/-- the empty query is the identity on the incoming bindings -/
+theorem exec_empty (srch : Srch) (bss : List Bs) : execQ srch .empty bss = .ok bss :=
+  execQ.eq_1 srch bss
+
+/-! ## 2. `and` -/
+
+/-- `and` is the left-to-right Kleisli composition of its conjuncts (the first error aborts) -/
+theorem exec_and (srch : Srch) (qs : List Q) (bss : List Bs) :
+    execQ srch (.and qs) bss = qs.foldlM (fun acc q => execQ srch q acc) bss :=
+  exec_and_eq srch qs bss
+
+/-- `and []` is the identity -/
+theorem exec_and_nil (srch : Srch) (bss : List Bs) : execQ srch (.and []) bss = .ok bss := by
+  rw [exec_and_eq]; rfl
+
+/-- `and (q :: qs)`: run `q`, feed its result to the remaining conjuncts -/
+theorem exec_and_cons (srch : Srch) (q : Q) (qs : List Q) (bss : List Bs) :
+    execQ srch (.and (q :: qs)) bss = (do let r ← execQ srch q bss; execQ srch (.and qs) r) := by
+  rw [execQ.eq_4, execAnd.eq_2]
+  cases execQ srch q bss with
+  | error e => rfl
+  | ok r => exact (execQ.eq_4 srch r qs).symm
+
+/-! ## 3. `or` -/
+
+/-- `or []` yields nothing, whatever comes in -/
+theorem exec_or_nil (srch : Srch) (sc : Bool) (bss : List Bs) : execQ srch (.or [] sc) bss = .ok [] := by
+  rw [exec_or_eq, bindEach_ok_of_forall _ (fun _ => []) bss (fun bs _ => execOr_nil srch sc bs)]
+  congr 1
+  induction bss with
+  | nil => rfl
+  | cons b bs ih => rw [List.flatMap_cons, ih]; rfl
+
+/-- `or` works binding by binding: the result for a list of incoming bindings is the concatenation, in order,
+of the results for each single binding (the first error aborts) -/
+theorem exec_or_bindings (srch : Srch) (qs : List Q) (sc : Bool) (bss : List Bs) :
+    execQ srch (.or qs sc) bss = bindEach (fun bs => execQ srch (.or qs sc) [bs]) bss := by
+  rw [exec_or_eq]
+  congr 1
+  funext bs
+  rw [exec_or_eq, bindEach_single]
+
+/-- without `shortCircuit`, one incoming binding yields the concatenation of every disjunct's result -/
+theorem exec_or_all (srch : Srch) (qs : List Q) (bs : Bs) (rs : List (List Bs))
+    (h : Pointwise (fun q r => execQ srch q [bs] = .ok r) qs rs) :
+    execQ srch (.or qs false) [bs] = .ok rs.flatten := by
+  rw [exec_or_eq, bindEach_single]; exact execOr_all srch bs qs rs h
+
+/-- with `shortCircuit`, one incoming binding yields the first non-empty disjunct result (or nothing) -/
+theorem exec_or_short_circuit (srch : Srch) (qs : List Q) (bs : Bs) (rs : List (List Bs))
+    (h : Pointwise (fun q r => execQ srch q [bs] = .ok r) qs rs) :
+    execQ srch (.or qs true) [bs] = .ok (orFirst rs) := by
+  rw [exec_or_eq, bindEach_single]; exact execOr_first srch bs qs rs h
+
+/-- with `shortCircuit`, evaluation stops at the first non-empty disjunct: the later disjuncts `post`
+are not evaluated at all (they may even be failing queries) -/
+theorem exec_or_stops (srch : Srch) (pre post : List Q) (q : Q) (bs : Bs) (r : List Bs)
+    (hpre : ∀ q' ∈ pre, execQ srch q' [bs] = .ok []) (hq : execQ srch q [bs] = .ok r) (hne : r ≠ []) :
+    execQ srch (.or (pre ++ q :: post) true) [bs] = .ok r := by
+  rw [exec_or_eq, bindEach_single, execOr_skip_empty srch true bs _ pre hpre]
+  exact execOr_cons_sc srch q post bs r hq hne
+
+/-- without `shortCircuit`, every disjunct is evaluated: a failing disjunct fails the whole `or` -/
+theorem exec_or_error (srch : Srch) (pre post : List Q) (q : Q) (bs : Bs) (e : LErr)
+    (hpre : ∀ q' ∈ pre, ∃ r, execQ srch q' [bs] = .ok r) (hq : execQ srch q [bs] = .error e) :
+    execQ srch (.or (pre ++ q :: post) false) [bs] = .error e := by
+  rw [exec_or_eq, bindEach_single]; exact execOr_nosc_err srch bs q post e pre hpre hq
+
+/-! ## 4. `not` -/
+
+/-- `not q` keeps exactly the incoming bindings (in order, with multiplicity) for which `q` on the
+singleton yields nothing -/
+theorem exec_not (srch : Srch) (q : Q) (res : Bs → List Bs) (bss : List Bs)
+    (h : ∀ bs ∈ bss, execQ srch q [bs] = .ok (res bs)) :
+    execQ srch (.not q) bss = .ok (bss.filter (fun bs => (res bs).isEmpty)) :=
+  exec_not_filter srch q res bss h
+
+/-- an error of the negated query on any incoming binding fails the `not` -/
+theorem exec_not_error (srch : Srch) (q : Q) (bss : List Bs) (bs : Bs) (e : LErr)
+    (hm : bs ∈ bss) (h : execQ srch q [bs] = .error e) : ∃ e', execQ srch (.not q) bss = .error e' := by
+  rw [exec_not_eq]
+  exact bindEach_err_of_mem _ bss bs e hm (by unfold notOne; rw [bind_err _ e _ h])
+
+/-! ## 5. `pattern` -/
+
+/-- `pattern`: for each incoming binding `bs`, in order, for each `more` that the fact search returns for the
+pattern with `bs` substituted (`Bind`), the extension `ExtendBindings bs more`.
+(`subst bs (.obj p)` is always a map, so the "isn't a map" error of the Go code is unreachable.) -/
+theorem exec_pattern (srch : Srch) (p : Obj) (l : List String) (found : Bs → List Bs) (bss : List Bs)
+    (h : ∀ bs ∈ bss, srch (substO bs p) = .ok (found bs)) :
+    execQ srch (.pattern p l) bss = .ok (bss.flatMap fun bs => (found bs).map (extendBs bs)) :=
+  exec_pattern_ok srch p l found bss h
+
+/-- a failing fact search fails the query -/
+theorem exec_pattern_error (srch : Srch) (p : Obj) (l : List String) (bss : List Bs) (bs : Bs) (e : LErr)
+    (hm : bs ∈ bss) (h : srch (substO bs p) = .error e) : ∃ e', execQ srch (.pattern p l) bss = .error e' := by
+  rw [exec_pattern_eq]
+  exact bindEach_err_of_mem _ bss bs e hm (by unfold patOne; rw [bind_err _ e _ h])
+
+/-- `Bind` of a map pattern is the map with `bs` substituted in every value -/
+theorem bind_is_map (bs : Bs) (p : Obj) : subst bs (.obj p) = .obj (substO bs p) := subst_obj bs p
+
+/-- `ExtendBindings x y` is a right-biased merge: `k` maps to `y`'s value if `y` (a map: distinct keys)
+binds `k`, else to `x`'s -/
+theorem extendBs_get (x y : Bs) (k : String) (hn : (y.map (·.1)).Nodup) :
+    Bs.get? (extendBs x y) k = (Bs.get? y k).or (Bs.get? x k) :=
+  QueryProofs.extendBs_get x y k hn
+
+/-- without the distinct-keys assumption: the last entry of `y` for `k` wins -/
+theorem extendBs_get_last (x y : Bs) (k : String) :
+    Bs.get? (extendBs x y) k = (Bs.getLast? y k).or (Bs.get? x k) :=
+  QueryProofs.extendBs_get_last x y k
+
+/-! ## 6. `code` -/
+
+/-- `code`: the script is evaluated once per incoming binding, in order, on `StripQuestionMarks bs`;
+its value decides through `codeKeep` -/
+theorem exec_code (srch : Srch) (t : J) (val : Bs → J) (bss : List Bs)
+    (h : ∀ bs ∈ bss, evalTmpl t (stripQ bs) = .ok (val bs)) :
+    execQ srch (.code t) bss = .ok (bss.flatMap fun bs => codeKeep bs (val bs)) :=
+  exec_code_ok srch t val bss h
+
+/-- an evaluation error aborts the whole query -/
+theorem exec_code_error (srch : Srch) (t : J) (bss : List Bs) (bs : Bs) (e : LErr)
+    (hm : bs ∈ bss) (h : evalTmpl t (stripQ bs) = .error e) : ∃ e', execQ srch (.code t) bss = .error e' := by
+  rw [exec_code_eq]
+  exact bindEach_err_of_mem _ bss bs e hm (by unfold codeOne; rw [bind_err _ e _ h])
+
+/-- the binding is dropped iff the script's value is `null` or `false` -/
+theorem code_drop_iff (bs : Bs) (v : J) : codeKeep bs v = [] ↔ v = .null ∨ v = .bool false :=
+  codeKeep_eq_nil bs v
+
+/-- `true`, and every other non-null, non-false, non-object value, keeps the binding unchanged -/
+theorem code_keep (bs : Bs) (v : J) (h1 : v ≠ .null) (h2 : v ≠ .bool false) (h3 : ∀ o, v ≠ .obj o) :
+    codeKeep bs v = [bs] :=
+  codeKeep_keep bs v h1 h2 h3
+
+/-- a returned object is merged into the binding under `?`-prefixed keys (right-biased, as `ExtendBindings`) -/
+theorem code_merge (bs : Bs) (o : Obj) :
+    codeKeep bs (.obj o) = [extendBs bs (o.map (fun kv => ("?" ++ kv.1, kv.2)))] :=
+  codeKeep_obj bs o
+
+/-! ## 7. the compositional law -/
+
+/-- every query maps no bindings to no bindings -/
+theorem exec_nil (srch : Srch) (q : Q) : execQ srch q [] = .ok [] := QueryProofs.exec_nil srch q
+
+/-- `exec_append`: for EVERY query program (`and`, `or`, `not` included), evaluating on `b₁ ++ b₂` is
+evaluating on `b₁` and on `b₂` and concatenating -/
+theorem exec_append (srch : Srch) (q : Q) (b₁ b₂ r₁ r₂ : List Bs)
+    (h₁ : execQ srch q b₁ = .ok r₁) (h₂ : execQ srch q b₂ = .ok r₂) :
+    execQ srch q (b₁ ++ b₂) = .ok (r₁ ++ r₂) :=
+  (exec_additive srch q b₁ b₂).1 r₁ r₂ h₁ h₂
+
+/-- an error on the first part is an error on the whole (not necessarily the same one: inside an `and`
+the second part's first conjunct runs before the first part's second conjunct) -/
+theorem exec_append_error_left (srch : Srch) (q : Q) (b₁ b₂ : List Bs) (e : LErr)
+    (h₁ : execQ srch q b₁ = .error e) : ∃ e', execQ srch q (b₁ ++ b₂) = .error e' :=
+  (exec_additive srch q b₁ b₂).2.1 e h₁
+
+/-- an error on the second part is an error on the whole -/
+theorem exec_append_error_right (srch : Srch) (q : Q) (b₁ b₂ : List Bs) (e : LErr)
+    (h₂ : execQ srch q b₂ = .error e) : ∃ e', execQ srch q (b₁ ++ b₂) = .error e' :=
+  (exec_additive srch q b₁ b₂).2.2 e h₂
+
+/-- consequence: a successful evaluation on several bindings is the in-order concatenation of the
+evaluations on the singletons — the per-binding theorems above determine the result on any list -/
+theorem exec_singletons (srch : Srch) (q : Q) (bss r : List Bs) (h : execQ srch q bss = .ok r) :
+    ∃ per, Pointwise (fun bs x => execQ srch q [bs] = .ok x) bss per ∧ r = per.flatten :=
+  QueryProofs.exec_singletons srch q bss r h
+
+/-! ## 8. `ParseQuery` dispatch order -/
+
+/-- `{}` is the empty query -/
+theorem parse_empty (n : Nat) : parseQuery (n + 1) (.obj []) = .ok .empty := QueryProofs.parse_empty n
+
+/-- anything but a map is a syntax error -/
+theorem parse_nonmap (n : Nat) (j : J) (h : ∀ o, j ≠ .obj o) : parseQuery (n + 1) j = .error "syntax" :=
+  QueryProofs.parse_nonmap n j h
+
+/-- `code` is tried first: whatever else the map holds -/
+theorem parse_order_code (n : Nat) (q : Obj) (hne : q ≠ []) (h : Obj.has q "code" = true) :
+    parseQuery (n + 1) (.obj q) =
+      if Obj.has q "verif_bad" then .error "syntax" else .ok (.code ((Obj.get? q "verif_tmpl").getD .null)) :=
+  QueryProofs.parse_code n q hne h
+
+/-- then `pattern` (must be a map) -/
+theorem parse_order_pattern (n : Nat) (q : Obj) (hne : q ≠ []) (h0 : Obj.has q "code" = false)
+    (h : Obj.has q "pattern" = true) :
+    parseQuery (n + 1) (.obj q) =
+      match Obj.get? q "pattern" with
+      | some (.obj p) => .ok (.pattern p [])
+      | _ => .error "syntax" :=
+  QueryProofs.parse_pattern n q hne h0 h
+
+/-- then `and` (must be an array of queries) -/
+theorem parse_order_and (n : Nat) (q : Obj) (hne : q ≠ []) (h0 : Obj.has q "code" = false)
+    (h1 : Obj.has q "pattern" = false) (h : Obj.has q "and" = true) :
+    parseQuery (n + 1) (.obj q) =
+      match Obj.get? q "and" with
+      | some (.arr xs) => do let qs ← xs.mapM (parseQuery n); pure (.and qs)
+      | _ => .error "syntax" :=
+  QueryProofs.parse_and n q hne h0 h1 h
+
+/-- then `or` (array of queries, plus the short-circuit option `scSpec`) -/
+theorem parse_order_or (n : Nat) (q : Obj) (hne : q ≠ []) (h0 : Obj.has q "code" = false)
+    (h1 : Obj.has q "pattern" = false) (h2 : Obj.has q "and" = false) (h : Obj.has q "or" = true) :
+    parseQuery (n + 1) (.obj q) =
+      match Obj.get? q "or" with
+      | some (.arr xs) => do let qs ← xs.mapM (parseQuery n); let sc ← scSpec q; pure (.or qs sc)
+      | _ => .error "syntax" :=
+  QueryProofs.parse_or n q hne h0 h1 h2 h
+
+/-- then `not` (must be a map) -/
+theorem parse_order_not (n : Nat) (q : Obj) (hne : q ≠ []) (h0 : Obj.has q "code" = false)
+    (h1 : Obj.has q "pattern" = false) (h2 : Obj.has q "and" = false) (h3 : Obj.has q "or" = false)
+    (h : Obj.has q "not" = true) :
+    parseQuery (n + 1) (.obj q) =
+      match Obj.get? q "not" with
+      | some (.obj a) => do let q' ← parseQuery n (.obj a); pure (.not q')
+      | _ => .error "syntax" :=
+  QueryProofs.parse_not n q hne h0 h1 h2 h3 h
+
+/-- a non-empty map with none of the five keys is a syntax error -/
+theorem parse_order_none (n : Nat) (q : Obj) (hne : q ≠ []) (h0 : Obj.has q "code" = false)
+    (h1 : Obj.has q "pattern" = false) (h2 : Obj.has q "and" = false) (h3 : Obj.has q "or" = false)
+    (h4 : Obj.has q "not" = false) :
+    parseQuery (n + 1) (.obj q) = .error "syntax" :=
+  QueryProofs.parse_none n q hne h0 h1 h2 h3 h4
+
+/-- none of the four `shortCircuit` spellings present: no short-circuit -/
+theorem short_circuit_absent (q : Obj) (h : ∀ k ∈ scKeys, Obj.has q k = false) : scSpec q = .ok false :=
+  scSpec_absent q h
+
+/-- the first spelling (in the order `shortCircuit`, `ShortCircuit`, `short_circuit`, `shortcircuit`) that is
+present decides, whatever the later ones say; it must be a bool -/
+theorem short_circuit_first (q : Obj) (pre post : List String) (k : String) (v : J)
+    (hk : scKeys = pre ++ k :: post) (hpre : ∀ k' ∈ pre, Obj.has q k' = false) (hv : Obj.get? q k = some v) :
+    scSpec q = match v with | .bool b => .ok b | _ => .error "syntax" :=
+  scSpec_first q pre post k v hk hpre hv
+
+/-! ## 9. `StripQuestionMarks` -/
+
+/-- `stripQ` drops the entries with an empty key and maps every other key through `stripKey` -/
+theorem strip_spec (bs : Bs) :
+    stripQ bs = (bs.filter (fun kv => !kv.1.isEmpty)).map (fun kv => (stripKey kv.1, kv.2)) :=
+  stripQ_eq bs
+
+/-- entry-wise reading of `strip_spec` -/
+theorem strip_mem (bs : Bs) (k' : String) (v : J) :
+    (k', v) ∈ stripQ bs ↔ ∃ k, (k, v) ∈ bs ∧ k ≠ "" ∧ k' = stripKey k :=
+  mem_stripQ bs k' v
+
+/-- exactly one leading `?` is removed (`??x` becomes `?x`) -/
+theorem strip_key_var (s : String) : stripKey ("?" ++ s) = s := stripKey_var s
+
+/-- a key that does not start with `?` is kept -/
+theorem strip_key_other (k : String) (h : k.startsWith "?" = false) : stripKey k = k := stripKey_nonvar k h
+
+/-- `startsWith "?"` means what it says -/
+theorem starts_with_q (k : String) : k.startsWith "?" = true ↔ ∃ t, k = "?" ++ t := startsWith_q_iff k
+
+/-! ## Non-vacuity: the hypotheses are satisfiable, and the definitions evaluate as expected, on a concrete
+instance — facts `{"a":1}`, `{"a":2}`, `{"b":1}` searched with the real matcher model (`QueryEx.exSrch`),
+bindings `x1 = {"?x":1}`, `x2 = {"?x":2}`, queries `qA = {"pattern":{"a":"?x"}}`, `qB = {"pattern":{"b":"?x"}}` -/
+
+section Examples
+open QueryEx
+
+/-- `pattern` on the empty binding: one result per matching fact, in order (hypothesis of `exec_pattern`) -/
+example : execQ exSrch qA [[]] = .ok [x1, x2] := by
+  have h := exec_pattern exSrch [("a", .str "?x")] [] (fun _ => [x1, x2]) [[]]
+    (by intro bs hm; rw [List.mem_singleton] at hm; subst hm; rw [subst_a_nil, srch_a_var])
+  rw [qA, h]
+  simp [ext_nil]
+
+/-- `pattern` with the variable already bound: the binding is substituted first and then kept -/
+example : execQ exSrch qB [x1] = .ok [x1] ∧ execQ exSrch qB [x2] = .ok [] := ⟨qB_x1, qB_x2⟩
+
+/-- `not` keeps `x2` twice (no fact `{"b":2}`) and drops `x1` (fact `{"b":1}`): order and multiplicity -/
+example : execQ exSrch (.not qB) [x1, x2, x2] = .ok [x2, x2] := by
+  rw [exec_not exSrch qB resB [x1, x2, x2] qB_res]; simp [x1, x2, resB]
+
+/-- `and`: the second conjunct sees the bindings produced by the first -/
+example : execQ exSrch (.and [qA, .not qB]) [[]] = .ok [x2] := by
+  rw [exec_and_cons, qA_nil]
+  show execQ exSrch (.and [.not qB]) [x1, x2] = _
+  rw [exec_and_cons, exec_not exSrch qB resB [x1, x2] (fun bs hm => qB_res bs (by
+    simp only [List.mem_cons, List.not_mem_nil, or_false] at hm ⊢; rcases hm with h | h <;> simp [h]))]
+  show execQ exSrch (.and []) _ = _
+  rw [exec_and_nil]; simp [x1, x2, resB]
+
+/-- `or` without short-circuit: both disjuncts, concatenated in order -/
+example : execQ exSrch (.or [qB, qA] false) [[]] = .ok [x1, x1, x2] :=
+  exec_or_all exSrch [qB, qA] [] [[x1], [x1, x2]] (.cons qB_nil (.cons qA_nil .nil))
+
+/-- `or` with short-circuit: stops after the first non-empty disjunct, the failing third one is not run -/
+example : execQ exSrch (.or [.not .empty, qB, .code tThrow] true) [[]] = .ok [x1] :=
+  exec_or_stops exSrch [.not .empty] [.code tThrow] qB [] [x1]
+    (by
+      intro q hq; rw [List.mem_singleton] at hq; subst hq
+      rw [exec_not exSrch .empty (fun bs => [bs]) [[]] (fun bs _ => exec_empty exSrch [bs])]; rfl)
+    qB_nil (by simp)
+
+/-- the same `or` without short-circuit runs the third disjunct and fails -/
+example : execQ exSrch (.or [.not .empty, qB, .code tThrow] false) [[]] = .error "script" :=
+  exec_or_error exSrch [.not .empty, qB] [] (.code tThrow) [] "script"
+    (by
+      intro q hq
+      simp only [List.mem_cons, List.not_mem_nil, or_false] at hq
+      rcases hq with rfl | rfl
+      · exact ⟨[], by rw [exec_not exSrch .empty (fun bs => [bs]) [[]] (fun bs _ => exec_empty exSrch [bs])]; rfl⟩
+      · exact ⟨_, qB_nil⟩)
+    throw_nil
+
+/-- `code`: `false` drops, `true` keeps; the script sees `x`, not `?x` -/
+example : execQ exSrch (.code tEq2) [x1, x2] = .ok [x2] := by
+  rw [exec_code exSrch tEq2 (fun bs => match bs with | [(_, .num 2)] => .bool true | _ => .bool false) [x1, x2] (by
+    intro bs hm
+    simp only [List.mem_cons, List.not_mem_nil, or_false] at hm
+    rcases hm with rfl | rfl
+    · exact eq2_x1
+    · exact eq2_x2)]
+  simp [x1, x2, codeKeep]
+
+/-- `code` returning an object: merged under a `?`-prefixed key -/
+example : execQ exSrch (.code tBind) [x1] = .ok [[("?y", .num 1), ("?x", .num 1)]] := by
+  rw [exec_code exSrch tBind (fun _ => .obj [("y", .num 1)]) [x1] (by
+    intro bs hm; rw [List.mem_singleton] at hm; subst hm; exact bind_x1)]
+  simp [x1, code_merge, extendBs, Bs.set]
+
+/-- `exec_append` on an instance with `and` and `not` -/
+example : execQ exSrch (.and [qA, .not qB]) ([[]] ++ [[]]) = .ok ([x2] ++ [x2]) :=
+  exec_append exSrch _ _ _ _ _ ex_and ex_and
+
+/-- `ParseQuery`: a map holding `and`, `or` and `not` is an `and` (dispatch order) -/
+example : parseQuery 9 exDoc = .ok (.and [qA, .not qB]) := exDoc_parse
+
+/-- `ShortCircuit:true` is tried before `short_circuit:false` -/
+example : parseQuery 9 exDocOr = .ok (.or [.empty] true) := exDocOr_parse
+
+/-- `StripQuestionMarks` on `{"?x":1}` -/
+example : stripQ x1 = [("x", .num 1)] := strip_x1
+
+end Examples
